@@ -28,6 +28,7 @@ import (
 	"time"
 
 	"github.com/graphql-go/graphql"
+	"github.com/graphql-go/graphql/language/ast"
 	"github.com/graphql-go/graphql/language/parser"
 	"github.com/graphql-go/graphql/language/source"
 
@@ -48,7 +49,9 @@ type query struct {
 type scenario struct {
 	Name    string  `json:"name"`
 	Queries []query `json:"queries"`
-	build   func() (*graphql.Schema, error)
+	// Ops, when set, replaces the default mix of entry points for the rounds of this scenario
+	Ops   []string `json:"ops,omitempty"`
+	build func() (*graphql.Schema, error)
 }
 
 var wideQueries = []string{
@@ -60,6 +63,9 @@ var wideQueries = []string{
 	`{ __schema { types { name kind fields { name } possibleTypes { name } enumValues { name } inputFields { name } } } }`,
 	`mutation { m1 { y u { ... on T2 { y } } } m3 { y z { y } } }`,
 	`{ a @d(p: 1, q: 2, r: 3, s: 4) b @cfg(o: {p: 1, r: K}, e: L) }`,
+	// enums whose names share an internal value / have none: serialised by every goroutine at once
+	`{ aliases alias a2: alias(x: CRIMSON) a3: alias(x: AZURE) nodes { ... on T1 { al als } ... on T2 { als } ... on T3 { al } ... on T4 { al als } } us { ... on Node { y } ... on T1 { als } } }`,
+	`{ echo(term: "x") node { ... on T1 { al echoT(tags: ["p"]) } ... on T2 { al } ... on T3 { als } ... on T4 { als } } aliases }`,
 }
 
 var wideVars = map[string]interface{}{"c": "GREEN", "o": map[string]interface{}{"a": 1, "d": "RED", "e": map[string]interface{}{"d": "BLUE"}}}
@@ -77,6 +83,84 @@ func buildDirOnly() (*graphql.Schema, error) {
 		"a": &graphql.Field{Type: graphql.Int, Resolve: func(p graphql.ResolveParams) (interface{}, error) { return 1, nil }}}})
 	s, err := graphql.NewSchema(graphql.SchemaConfig{Query: q, Directives: append([]*graphql.Directive{dir}, graphql.SpecifiedDirectives...)})
 	return &s, err
+}
+
+// slowPlan: abstract fields (a union and an interface, in lists whose elements have different runtime types, nested) whose
+// sub-selections carry literals of a custom scalar; ParseLiteral — called by the lazy, per-runtime-type planning that
+// happens inside ExecutePlan the first time a runtime type shows up — takes a few hundred microseconds. On a cold shared
+// *Plan the goroutines that arrive second therefore arrive WHILE the first one is planning that runtime type.
+func buildSlowPlan() (*graphql.Schema, error) {
+	type pet struct {
+		kind string
+		name string
+		d    int
+	}
+	slow := graphql.NewScalar(graphql.ScalarConfig{Name: "Slow",
+		Serialize:  func(v interface{}) interface{} { return v },
+		ParseValue: func(v interface{}) interface{} { return v },
+		ParseLiteral: func(v ast.Value) interface{} {
+			time.Sleep(300 * time.Microsecond)
+			runtime.Gosched()
+			if iv, ok := v.(*ast.IntValue); ok {
+				return iv.Value
+			}
+			return nil
+		}})
+	objs := map[string]*graphql.Object{}
+	resolveType := func(p graphql.ResolveTypeParams) *graphql.Object {
+		if x, ok := p.Value.(*pet); ok {
+			return objs[x.kind]
+		}
+		return nil
+	}
+	named := graphql.NewInterface(graphql.InterfaceConfig{Name: "Named", Fields: graphql.Fields{"name": &graphql.Field{Type: graphql.String}}, ResolveType: resolveType})
+	var petU *graphql.Union
+	friend := func(p graphql.ResolveParams) (interface{}, error) {
+		x := p.Source.(*pet)
+		k := map[string]string{"Dog": "Cat", "Cat": "Dog", "Bird": "Dog"}[x.kind]
+		return &pet{k, x.name + ">" + k, x.d + 1}, nil
+	}
+	pack := func(p graphql.ResolveParams) (interface{}, error) {
+		x := p.Source.(*pet)
+		return []interface{}{&pet{"Cat", x.name + ".c", x.d + 1}, &pet{"Dog", x.name + ".d", x.d + 1}, &pet{"Bird", x.name + ".b", x.d + 1}}, nil
+	}
+	say := func(word string) graphql.FieldResolveFn {
+		return func(p graphql.ResolveParams) (interface{}, error) {
+			x := p.Source.(*pet)
+			return fmt.Sprintf("%s %s@%v", x.name, word, p.Args["v"]), nil
+		}
+	}
+	mk := func(kind, word string) *graphql.Object {
+		o := graphql.NewObject(graphql.ObjectConfig{Name: kind, Interfaces: []*graphql.Interface{named},
+			Fields: graphql.FieldsThunk(func() graphql.Fields {
+				return graphql.Fields{
+					"name":   &graphql.Field{Type: graphql.String, Resolve: func(p graphql.ResolveParams) (interface{}, error) { return p.Source.(*pet).name, nil }},
+					"say":    &graphql.Field{Type: graphql.String, Args: graphql.FieldConfigArgument{"v": &graphql.ArgumentConfig{Type: slow}}, Resolve: say(word)},
+					"friend": &graphql.Field{Type: petU, Resolve: friend},
+					"pack":   &graphql.Field{Type: graphql.NewList(named), Resolve: pack},
+				}
+			})})
+		objs[kind] = o
+		return o
+	}
+	dog, cat, bird := mk("Dog", "woof"), mk("Cat", "meow"), mk("Bird", "tweet")
+	petU = graphql.NewUnion(graphql.UnionConfig{Name: "Pet", Types: []*graphql.Object{dog, cat, bird}, ResolveType: resolveType})
+	pets := func(p graphql.ResolveParams) (interface{}, error) {
+		return []interface{}{&pet{"Dog", "Rex", 0}, &pet{"Cat", "Tom", 0}, &pet{"Dog", "Fido", 0}, &pet{"Bird", "Kiwi", 0}, &pet{"Cat", "Kit", 0}}, nil
+	}
+	q := graphql.NewObject(graphql.ObjectConfig{Name: "Q", Fields: graphql.Fields{
+		"pet":   &graphql.Field{Type: petU, Resolve: func(p graphql.ResolveParams) (interface{}, error) { return &pet{"Dog", "Rex", 0}, nil }},
+		"pets":  &graphql.Field{Type: graphql.NewList(petU), Resolve: pets},
+		"named": &graphql.Field{Type: graphql.NewList(named), Resolve: pets},
+	}})
+	s, err := graphql.NewSchema(graphql.SchemaConfig{Query: q, Types: []graphql.Type{dog, cat, bird}})
+	return &s, err
+}
+
+var slowPlanQueries = []query{
+	{Q: `{ pets { __typename ... on Dog { name say(v: 3) friend { ... on Cat { name say(v: 2) friend { ... on Dog { say(v: 1) } } } } } ... on Cat { name say(v: 5) pack { name ... on Bird { say(v: 4) } } } ... on Bird { name } } }`},
+	{Q: `{ named { name ... on Dog { say(v: 7) pack { ... on Cat { say(v: 1) } ... on Dog { name say(v: 6) } } } ... on Cat { say(v: 8) } } pet { ... on Dog { say(v: 2) friend { ... on Cat { say(v: 9) } } } } }`},
+	{Q: `{ pet { __typename ... on Dog { name say(v: 3) } ... on Cat { name } } }`},
 }
 
 func descScenario(name string, desc *gq.SchemaDesc, qs []query, errors, thunks bool) scenario {
@@ -103,6 +187,12 @@ func scenarios(seed uint64, thorough bool) []scenario {
 	out = append(out, descScenario("wide+errors+thunks", wide, wq, true, true))
 	out = append(out, scenario{Name: "dirOnly", build: buildDirOnly, Queries: []query{
 		{Q: `{ a @cfg(o: {p: 1, r: K}, e: L) }`}, {Q: `{ a2: a @cfg(o: {p: "x", r: Z}, e: 3) a }`}, {Q: `{ a }`}}})
+	// three entries = three times the weight: these rounds are the ones that can see a lazy initialiser whose check and
+	// store are not one critical section (all accesses locked, no race report, wrong answer)
+	for k := 0; k < 3; k++ {
+		out = append(out, scenario{Name: "slowPlan", build: buildSlowPlan, Queries: slowPlanQueries,
+			Ops: []string{"execPlan", "execPlan", "execPlan", "cacheGet", "cacheGet", "do"}})
+	}
 	nGen := 6
 	if thorough {
 		nGen = 40
@@ -150,6 +240,13 @@ func mkRound(seed uint64, i int, scs []scenario) roundSpec {
 	// most goroutines of a round hammer the same one or two queries, so that their first-time paths coincide
 	hot := r.Intn(nq)
 	ops := []string{"do", "do", "cacheGet", "cacheGet", "execPlan", "execPlan", "validate", "reset"}
+	if len(scs[rs.Scenario].Ops) > 0 {
+		ops = scs[rs.Scenario].Ops
+		rs.Norm = false
+		if rs.N == 2 {
+			rs.N = 8
+		}
+	}
 	for g := 0; g < rs.N; g++ {
 		var sc []step
 		n := r.Range(2, 4)
